@@ -11,9 +11,9 @@
 (* Gap is stated on the SHAPE, not on the resolver: the places where the   *)
 (* resolver forgets that a schema admits null.                             *)
 (***************************************************************************)
-EXTENDS TypeResolve
+EXTENDS TypeResolve, Json
 CONSTANT Tier
-VARIABLES s, pos, done
+VARIABLES s, pos, phase, r, env   \* r = the as-is answer for (s, pos), env = the as-is definitions of the components (both computed once)
 
 H == "fo,fr,z"
 DPos == {"req", "opt", "respsvc", "alias"}
@@ -61,30 +61,53 @@ AsIsEnv == <<DefOf("Pet"), DefOf("Color"), DefOf("Name"), DefOf("Stamp"), DefOf(
 
 (* ----- Gap: stated on the shape *)
 AdmitsNull(x) == LET d == Admits(x, H) IN ~d.any /\ <<"null", "", "">> \in d.atoms
-RECURSIVE ArrayOfNullable(_)
-ArrayOfNullable(x) ==
-  \/ (x.k = "array" /\ (AdmitsNull(x.of[1]) \/ ArrayOfNullable(x.of[1])))
-  \/ (x.k \in {"oneOf", "anyOf"} /\ \E i \in 1..Len(x.of) : ArrayOfNullable(x.of[i]))
-  \/ (x.k = "allOf" /\ ArrayOfNullable(x.of[1]))
-  \/ (x.k = "ref" /\ ArrayOfNullable(Comp(x.a, H)))
-Gap(x, p) == ArrayOfNullable(x) \/ (p = "respsvc" /\ AdmitsNull(x))
+\* the sub-shapes whose own annotation is spliced into the annotation of x (a map value is not: dict[str, Any])
+RECURSIVE Reach(_)
+Reach(x) == {x} \cup (CASE x.k = "array" -> Reach(x.of[1])
+                         [] x.k \in {"oneOf", "anyOf"} -> UNION {Reach(x.of[i]) : i \in 1..Len(x.of)}
+                         [] x.k = "allOf" -> Reach(x.of[1])
+                         [] x.k = "ref" -> Reach(Comp(x.a, H))
+                         [] OTHER -> {})
+\* (1) the item type of an array is resolved as required and its nullability is dropped;
+\* (2) an allOf of several members is typed as its first typed member; (3) the response entry point of the service
+\* never looks at the nullability of the response schema
+Gap(x, p) == \/ \E y \in Reach(x) : (y.k = "array" /\ AdmitsNull(y.of[1])) \/ (y.k = "allOf" /\ Len(y.of) > 1 /\ ~(p = "alias" /\ y = x))
+             \/ (p = "respsvc" /\ AdmitsNull(x))
+\* resolve_underlying (the alias generator's entry point) passes through a named enum used as array item / union member:
+\* its class name is returned, its import is not registered (_resolve_string)
+NamedEnumRef(x) == x.k = "ref" /\ x.nul = "no" /\ Comp(x.a, H).k = "enum" /\ Comp(x.a, H).a \in {"string", "integer"}
+DirectKids(x) == IF x.nul \in {"anyOfNull", "oneOfNull"} THEN {Nul(x, "no")}
+                 ELSE IF x.k \in {"array", "oneOf", "anyOf"} THEN {x.of[i] : i \in 1..Len(x.of)} ELSE {}
+ImportGap(x, p) == p = "alias" /\ \E c \in DirectKids(x) : NamedEnumRef(c)
 
 (* ----- the statements *)
 PosOf(p) == IF p = "opt" THEN "opt" ELSE "req"
-IdealTotal == NoBad(Ideal(s, PosOf(pos), H))
-IdealNoDoubleOptional == NoDoubleOptional(Ideal(s, PosOf(pos), H))
-IdealSound == Sound(s, PosOf(pos), H, Ideal(s, PosOf(pos), H), IdealEnv(H))
-IdealTight == Tight(s, H, Ideal(s, PosOf(pos), H), IdealEnv(H))
+IdealTotal == phase = "judge" => NoBad(Ideal(s, PosOf(pos), H))
+IdealNoDoubleOptional == phase = "judge" => NoDoubleOptional(Ideal(s, PosOf(pos), H))
+IdealSound == phase = "judge" => Sound(s, PosOf(pos), H, Ideal(s, PosOf(pos), H), IdealEnv(H))
+IdealTight == phase = "judge" => Tight(s, H, Ideal(s, PosOf(pos), H), IdealEnv(H))
 
 RECURSIVE NoUnknown(_)
 NoUnknown(t) == ~(t.k = "name" /\ t.id = "?") /\ \A i \in 1..Len(t.args) : NoUnknown(t.args[i])
-AsIsTotal == NoBad(AsIsOf(s, pos).t) /\ NoUnknown(AsIsOf(s, pos).t)
-AsIsNoDoubleOptional == NoDoubleOptional(AsIsOf(s, pos).t)
-AsIsImportsClosed == LET r == AsIsOf(s, pos) IN ImportsClosed(Uses(r.t, "code"), {i[2] : i \in r.imps}, "Holder")
-AsIsSoundOutsideGap == ~Gap(s, pos) => Sound(s, PosOf(pos), H, AsIsOf(s, pos).t, AsIsEnv)
-GapIsReal == Gap(s, pos) => ~Sound(s, PosOf(pos), H, AsIsOf(s, pos).t, AsIsEnv)
+AsIsTotal == phase = "judge" => NoBad(r.t) /\ NoUnknown(r.t)
+AsIsNoDoubleOptional == phase = "judge" => NoDoubleOptional(r.t)
+AsIsImportsClosed == phase = "judge" /\ ~ImportGap(s, pos) => ImportsClosed(Uses(r.t, "code"), {i[2] : i \in r.imps}, "Holder")
+ImportGapIsReal == phase = "judge" /\ ImportGap(s, pos) => ~ImportsClosed(Uses(r.t, "code"), {i[2] : i \in r.imps}, "Holder")
+AsIsSoundOutsideGap == phase = "judge" /\ ~Gap(s, pos) => Sound(s, PosOf(pos), H, r.t, env)
+GapIsReal == phase = "judge" /\ Gap(s, pos) => ~Sound(s, PosOf(pos), H, r.t, env)
 
-Init == s \in Shapes(Tier) /\ pos \in DPos /\ done = FALSE
-Judge == ~done /\ done' = TRUE /\ UNCHANGED <<s, pos>>
-Spec == Init /\ [][Judge]_<<s, pos, done>>
+\* a bare `Top: {$ref: X}` is refused by the loader: no alias entry point for it
+DApplicable(x, p) == ~(p = "alias" /\ x.k = "ref" /\ x.nul = "no")
+\* Initial states are buckets (entry point x top-level kind x spelling of null); Pick moves to one shape of the bucket.
+\* (TLC evaluates initial states in one thread: the buckets spread the shapes over the workers.)
+Kinds == {"prim", "enum", "any", "object", "array", "map", "ref", "oneOf", "anyOf", "allOf"}
+NulSpellings == {"no", "nullable", "type31", "anyOfNull", "oneOfNull", "member"}
+Init == /\ s \in {Sh(k, "", "", n, <<>>) : k \in Kinds, n \in NulSpellings} /\ pos \in DPos /\ phase = "bucket"
+        /\ r = [t |-> NoneT, imps |-> {}] /\ env = AsIsEnv
+Pick == /\ phase = "bucket" /\ phase' = "judge" /\ UNCHANGED <<pos, env>>
+        /\ s' \in {x \in Shapes(Tier) : x.k = s.k /\ x.nul = s.nul /\ DApplicable(x, pos)}
+        /\ r' = AsIsOf(s', pos)
+        /\ (Gap(s', pos) => PrintT("GAP " \o ToJson([gap |-> "sound", pos |-> pos, k |-> s'.k])))       \* measured: the exemptions are exercised
+        /\ (ImportGap(s', pos) => PrintT("GAP " \o ToJson([gap |-> "imports", pos |-> pos, k |-> s'.k])))
+Spec == Init /\ [][Pick]_<<s, pos, phase, r, env>>
 =============================================================================
